@@ -11,6 +11,7 @@ import (
 
 	"github.com/smart-core-os/sc-api/go/traits"
 	"github.com/smart-core-os/sc-api/go/types"
+	"github.com/smart-core-os/sc-golang/pkg/masks"
 	"github.com/smart-core-os/sc-golang/pkg/resource"
 )
 
@@ -81,7 +82,7 @@ func (m *ModelServer) ListHails(_ context.Context, request *traits.ListHailsRequ
 	}
 	pageSize := capPageSize(int(request.GetPageSize()))
 
-	sortedItems := m.model.ListHails(resource.WithReadMask(request.ReadMask))
+	sortedItems := m.model.ListHails()
 	nextIndex := 0
 	if lastKey != "" {
 		nextIndex = sort.Search(len(sortedItems), func(i int) bool {
@@ -107,7 +108,14 @@ func (m *ModelServer) ListHails(_ context.Context, request *traits.ListHailsRequ
 	if err != nil {
 		return nil, err
 	}
-	result.Hails = sortedItems[nextIndex:upperBound]
+	// the read mask is applied to the page only: the key that the page token and the search rely on has to be read from
+	// the complete items, otherwise a mask that leaves the key out yields the same token for ever
+	filter := masks.NewResponseFilter(masks.WithFieldMask(request.ReadMask))
+	page := sortedItems[nextIndex:upperBound]
+	result.Hails = make([]*traits.Hail, len(page))
+	for i, item := range page {
+		result.Hails[i] = filter.FilterClone(item).(*traits.Hail)
+	}
 	return result, nil
 }
 
